@@ -1,16 +1,20 @@
-import Rivaas.Lemmas.C15Final
+import Rivaas.Lemmas.C15Misc
+import Rivaas.Lemmas.C15Accept
 /-
 C15 — Response compression is transparent.
 
 Model: `Model/HttpBase` (net/http's response writer), `Model/Compress` (the middleware as it is
 now), `Model/CompressAsIs` (as it was shipped).  Oracle: `Spec/Compress`.  The coupling relation
-and its preservation lemmas are in `Lemmas/C15*.lean`; this file holds the property theorems.
+and its preservation lemmas are in `Lemmas/C15*.lean`; this file holds the property theorems,
+each with an example showing that its hypotheses are met by a non-trivial input.
 
 All statements quantify over every sniffing function `sn` (http.DetectContentType is a parameter),
 every configuration, request path, Accept-Encoding string and handler program.
 -/
 namespace Rivaas.C15
 open Rivaas.Http Rivaas.Compress Rivaas.CompressSpec
+
+/-! ### the main theorem -/
 
 theorem lemma_runWith_eq (sn : Sniff) (cfg : Cfg) (path ae : Bytes) (ops : List Op) :
     runWith sn cfg path ae ops =
@@ -52,31 +56,37 @@ theorem lemma_safe_of_not_midstream (ops : List Op) (h : panicMidstream ops = fa
       simp only [panicMidstream] at h
       simpa [isBodyOp] using lemma_safe_true os h
 
-/-- **C15, with the one recorded exclusion.**  For every sniffing function, configuration, path,
-    Accept-Encoding and handler program with acceptable status codes in which no panic follows a
-    body operation: the exchange with the middleware is transparent. -/
+/-- **C15, with the one recorded exclusion (K15m).**  For every sniffing function, configuration,
+    path, Accept-Encoding and handler program with acceptable status codes in which no panic
+    follows a body operation, the exchange with the middleware is transparent: no panic, same
+    status, same headers apart from Content-Encoding / Content-Length / Vary, the body decodes to
+    the plain body, every Write / io.Copy returns what the bare writer returns, and the
+    Content-Encoding is the plain one or the encoding chosen for the request. -/
 theorem transparent_partial (sn : Sniff) (cfg : Cfg) (path ae : Bytes) (ops : List Op)
     (hv : ∀ o ∈ ops, OpValid o) (hD : panicMidstream ops = false) :
-    Transparent (runWith sn cfg path ae ops) (runPlain sn ops) := by
+    Transparent (active cfg path ae) (runWith sn cfg path ae ops) (runPlain sn ops) := by
   rw [lemma_runWith_eq]
   by_cases ha : (active cfg path ae).isEmpty = true
   · simp only [ha, if_true]
-    exact ⟨rfl, rfl, fun _ _ _ _ => rfl, rfl, rfl⟩
+    exact ⟨rfl, rfl, fun _ _ _ _ => rfl, rfl, rfl, Or.inl rfl⟩
   · simp only [ha]
     have henc : active cfg path ae ≠ [] := by
       intro e; rw [e] at ha; exact ha rfl
     have hs := lemma_safe_of_not_midstream ops hD
     obtain ⟨⟨seen', hinv⟩, houts⟩ := lemma_fold sn ops false _ _ hv hs (lemma_init sn cfg _ henc)
+    have he := lemma_runOps_enc sn ops ({ thr := cfg.minSize, enc := active cfg path ae, exclCT := cfg.exclCT } : CW)
+    have := lemma_close_transparent sn seen' _ _ (runOps (plainStep sn) {} ops).2 hinv
+    rw [he] at this
     unfold finalCW runPlain
     simp only
     rw [houts]
-    exact lemma_close_transparent sn seen' _ _ _ hinv
+    exact this
 
 /-- **C15 on the statement's own domain** (programs of header operations, WriteHeader, Write,
     io.Copy and Flush — no panic): full strength, no exclusion. -/
 theorem transparent (sn : Sniff) (cfg : Cfg) (path ae : Bytes) (ops : List Op)
     (hv : ∀ o ∈ ops, OpValid o) (hnp : ops.any isPanicOp = false) :
-    Transparent (runWith sn cfg path ae ops) (runPlain sn ops) := by
+    Transparent (active cfg path ae) (runWith sn cfg path ae ops) (runPlain sn ops) := by
   apply transparent_partial sn cfg path ae ops hv
   clear hv
   induction ops with
@@ -91,5 +101,189 @@ theorem transparent (sn : Sniff) (cfg : Cfg) (path ae : Bytes) (ops : List Op)
     | write d => simpa [panicMidstream] using hnp.2
     | copy cs => simpa [panicMidstream] using hnp.2
     | flush => simpa [panicMidstream] using hnp.2
+
+/-- the hypotheses of `transparent` are met by a program that writes without a status, crosses a
+    threshold with its second write and flushes in between (and the conclusion is not trivial: the
+    middleware is active and compresses) -/
+example :
+    let ops := [Op.setH kCT ["text/plain".toList], .write "aaaa".toList, .flush, .write "bbbbbbbbbb".toList,
+                .writeHeader 404, .copy ["cc".toList, "d".toList]]
+    (∀ o ∈ ops, OpValid o) ∧ ops.any isPanicOp = false ∧
+    active ⟨10, true, true, [], [], []⟩ "/p".toList "gzip".toList = "gzip".toList := by
+  refine ⟨?_, by decide, by decide⟩
+  intro o ho
+  simp only [List.mem_cons, List.not_mem_nil, or_false] at ho
+  rcases ho with rfl | rfl | rfl | rfl | rfl | rfl <;> first | trivial | (constructor <;> decide)
+
+/-- …and by a program that panics before any body output (the K15f scenario), which only
+    `transparent_partial` covers -/
+example :
+    let ops := [Op.writeHeader 202, .panic, .setH kCT ["application/json".toList], .writeHeader 500, .write "{}".toList]
+    (∀ o ∈ ops, OpValid o) ∧ panicMidstream ops = false ∧ ops.any isPanicOp = true := by
+  refine ⟨?_, by decide, by decide⟩
+  intro o ho
+  simp only [List.mem_cons, List.not_mem_nil, or_false] at ho
+  rcases ho with rfl | rfl | rfl | rfl | rfl <;> first | trivial | (constructor <;> decide)
+
+/-! ### consequences, one per clause of the statement -/
+
+/-- the middleware never makes the exchange panic (K15b: it used to, on a Write without WriteHeader) -/
+theorem no_panic (sn : Sniff) (cfg : Cfg) (path ae : Bytes) (ops : List Op)
+    (hv : ∀ o ∈ ops, OpValid o) (hD : panicMidstream ops = false) :
+    (runWith sn cfg path ae ops).panicked = false := by
+  rw [(transparent_partial sn cfg path ae ops hv hD).noPanic]
+  exact lemma_plain_no_panic sn ops hv
+
+/-- **io.Writer contract**: every Write through the middleware returns `(len p, nil)` or an error
+    with `n ≤ len p`, every io.Copy copies everything or reports an error — stated with the
+    oracle's own `writeContract` on the results as the harness records them -/
+theorem write_contract (sn : Sniff) (cfg : Cfg) (path ae : Bytes) (ops : List Op)
+    (hv : ∀ o ∈ ops, OpValid o) (hD : panicMidstream ops = false) :
+    writeContract (writeLens ops) ((runWith sn cfg path ae ops).outs.map toObs) = true := by
+  rw [(transparent_partial sn cfg path ae ops hv hD).outs]
+  unfold runPlain
+  exact lemma_plain_contract sn ops {}
+
+/-- a streaming codec: what the wire carries for a sequence of encoder events (`some d` a Write,
+    `none` a Flush) followed by Close, and the decoder; the contract is the concatenation law the
+    harness checks on the real gzip / brotli codecs by decoding every response -/
+structure Codec where
+  enc : List (Option Bytes) → Bytes
+  dec : Bytes → Option Bytes
+  law : ∀ evs, dec (enc evs) = some (plainOf evs)
+
+/-- the body on the wire under codec `c` -/
+def wireBody (c : Codec) (sn : Sniff) (cfg : Cfg) (path ae : Bytes) (ops : List Op) : Option Bytes :=
+  let enc := active cfg path ae
+  if enc.isEmpty then some (runPlain sn ops).1.resp.body
+  else
+    let w := (finalCW sn cfg enc ops).1
+    let b := w.base.finish sn
+    if w.compress && w.hasWriter then
+      (if w.closed && b.body.isEmpty then some (c.enc w.evs) else none)
+    else some b.resp.body
+
+/-- whether the response is encoded (by the middleware) -/
+def encoded (sn : Sniff) (cfg : Cfg) (path ae : Bytes) (ops : List Op) : Bool :=
+  let enc := active cfg path ae
+  !enc.isEmpty && (finalCW sn cfg enc ops).1.compress && (finalCW sn cfg enc ops).1.hasWriter
+
+/-- **Decoding yields the handler's bytes**, for every codec that satisfies the streaming contract -/
+theorem transparent_wire (c : Codec) (sn : Sniff) (cfg : Cfg) (path ae : Bytes) (ops : List Op)
+    (hv : ∀ o ∈ ops, OpValid o) (hD : panicMidstream ops = false) :
+    ∃ wire, wireBody c sn cfg path ae ops = some wire ∧
+      (if encoded sn cfg path ae ops then c.dec wire else some wire) = some (runPlain sn ops).1.resp.body := by
+  have hb := (transparent_partial sn cfg path ae ops hv hD).body
+  unfold runWith at hb
+  unfold wireBody encoded
+  simp only at hb ⊢
+  by_cases ha : (active cfg path ae).isEmpty = true
+  · simp only [ha, if_true, Bool.not_true, Bool.false_and, Bool.false_eq_true, if_false]
+    exact ⟨_, rfl, rfl⟩
+  · have ha' : (active cfg path ae).isEmpty = false := by simpa using ha
+    simp only [ha', Bool.false_eq_true, if_false, Bool.not_false, Bool.true_and] at hb ⊢
+    by_cases hc : ((finalCW sn cfg (active cfg path ae) ops).1.compress &&
+        (finalCW sn cfg (active cfg path ae) ops).1.hasWriter) = true
+    · simp only [hc, if_true] at hb ⊢
+      by_cases hcl : ((finalCW sn cfg (active cfg path ae) ops).1.closed &&
+          ((finalCW sn cfg (active cfg path ae) ops).1.base.finish sn).body.isEmpty) = true
+      · simp only [hcl, if_true] at hb ⊢
+        refine ⟨_, rfl, ?_⟩
+        rw [c.law]
+        exact hb
+      · simp only [hcl] at hb
+        exact absurd hb (by simp)
+    · simp only [hc] at hb ⊢
+      exact ⟨_, rfl, hb⟩
+
+theorem lemma_choose_cases (ae : Bytes) (cfg : Cfg) :
+    (chooseEncoding ae cfg = brB ∧ ∃ b, (scanAE ae none none).1 = some b ∧ b > 0) ∨
+    (chooseEncoding ae cfg = gzipB ∧ ∃ g, (scanAE ae none none).2 = some g ∧ g > 0) ∨
+    chooseEncoding ae cfg = [] := by
+  unfold chooseEncoding
+  generalize scanAE ae none none = r
+  obtain ⟨rb, rg⟩ := r
+  cases rb with
+  | some b =>
+    by_cases hbr : (cfg.br && decide (b > 0) && qGe b rg) = true
+    · left
+      simp only [Bool.and_eq_true, decide_eq_true_eq] at hbr
+      simp [hbr.1.1, hbr.1.2, hbr.2]
+    · right
+      have hbr' : (cfg.br && decide (b > 0) && qGe b rg) = false := by simpa using hbr
+      cases rg with
+      | some g =>
+        by_cases hgz : (cfg.gzip && decide (g > 0)) = true
+        · left
+          simp only [Bool.and_eq_true, decide_eq_true_eq] at hgz
+          simp only [hbr', Bool.false_eq_true, if_false, hgz.1, hgz.2, decide_true, Bool.and_self, if_true,
+            true_and, Option.some.injEq, exists_eq_left']
+        · right
+          have hgz' : (cfg.gzip && decide (g > 0)) = false := by simpa using hgz
+          simp only [hbr', hgz', Bool.false_eq_true, if_false]
+      | none => right; simp only [hbr', Bool.false_eq_true, if_false]
+  | none =>
+    right
+    cases rg with
+    | some g =>
+      by_cases hgz : (cfg.gzip && decide (g > 0)) = true
+      · left
+        simp only [Bool.and_eq_true, decide_eq_true_eq] at hgz
+        simp only [Bool.false_eq_true, if_false, hgz.1, hgz.2, decide_true, Bool.and_self, if_true,
+          true_and, Option.some.injEq, exists_eq_left']
+      · right
+        have hgz' : (cfg.gzip && decide (g > 0)) = false := by simpa using hgz
+        simp only [hgz', Bool.false_eq_true, if_false]
+    | none => right; simp only [Bool.false_eq_true, if_false]
+
+/-- **Encoding only if listed.**  Whatever `chooseEncoding` picks is named by an element of the
+    client's Accept-Encoding list whose weight is not a valid zero — for every header string
+    (odd spacing, unknown tokens, malformed weights, repeated elements) and every configuration. -/
+theorem encoding_only_if_listed (ae : Bytes) (cfg : Cfg) (h : chooseEncoding ae cfg ≠ []) :
+    listed (chooseEncoding ae cfg) ae = true := by
+  obtain ⟨sb, sg⟩ := lemma_scanAE ae none none
+  rcases lemma_choose_cases ae cfg with ⟨he, b, hb, hq⟩ | ⟨he, g, hg, hq⟩ | he
+  · rw [he]
+    rw [hb] at sb
+    rcases sb with sb | ⟨el, hel, h1, h2⟩
+    · exact absurd sb (by simp)
+    · simp only [Option.some.injEq] at h2
+      exact lemma_listed_of_elem brB ae el hel h1 (by decide) (by rw [← h2]; exact hq)
+  · rw [he]
+    rw [hg] at sg
+    rcases sg with sg | ⟨el, hel, h1, h2⟩
+    · exact absurd sg (by simp)
+    · simp only [Option.some.injEq] at h2
+      exact lemma_listed_of_elem gzipB ae el hel h1 (by decide) (by rw [← h2]; exact hq)
+  · exact absurd he h
+
+/-- **An encoding is used only if the client lists it with non-zero quality**: the response's
+    Content-Encoding is the one of the plain run, or it is the coding `chooseEncoding` picked and
+    that coding is listed (token level) in the request's Accept-Encoding -/
+theorem encoding_used_only_if_listed (sn : Sniff) (cfg : Cfg) (path ae : Bytes) (ops : List Op)
+    (hv : ∀ o ∈ ops, OpValid o) (hD : panicMidstream ops = false) :
+    hget (runWith sn cfg path ae ops).resp.hdrs kCE = hget (runPlain sn ops).1.resp.hdrs kCE ∨
+    ∃ e, hget (runWith sn cfg path ae ops).resp.hdrs kCE = some [e] ∧ listed e ae = true := by
+  rcases (transparent_partial sn cfg path ae ops hv hD).coding with h | h
+  · exact Or.inl h
+  · by_cases ha : active cfg path ae = []
+    · -- the middleware is not installed: the exchange is the plain one
+      left
+      rw [lemma_runWith_eq]
+      simp [ha]
+    · right
+      refine ⟨active cfg path ae, h, ?_⟩
+      unfold active at ha ⊢
+      split at ha
+      · exact absurd rfl ha
+      · split at ha
+        · exact absurd rfl ha
+        · rename_i h1 h2
+          simp only [h1, h2, Bool.false_eq_true, if_false]
+          exact encoding_only_if_listed ae cfg ha
+
+/-- `encoding_only_if_listed` is not vacuous: odd spacing, a look-alike token and a refused coding -/
+example : chooseEncoding "x-gzip, GZip ; Q=0.5 ,br;q=0".toList ⟨0, true, true, [], [], []⟩ = "gzip".toList := by
+  decide
 
 end Rivaas.C15
